@@ -203,6 +203,7 @@ func (in *Inst) appendCall(x *ssa.Call, st *State) Val {
 		elem = sl.Elem()
 	}
 	n := slcLen(xs.T)
+	in.crlfCheck(x, xs, st)
 	newLen := e.define(in.name(x)+".len", "Int", sAdd(slcLen(s.T), n))
 	inplace := e.define(in.name(x)+".inplace", "Bool", sApp("<=", newLen, slcCap(s.T)))
 	fr := st.get("alloc")
@@ -584,6 +585,11 @@ func (in *Inst) applyContract(con *Contract, args []Val, sig *types.Signature, r
 		sig = types.NewSignatureType(nil, nil, nil, types.NewTuple(ps...), sig.Results(), sig.Variadic())
 	}
 	env := in.calleeEnv(con, args, sig, st)
+	if con.AppendsRaw && e.top != nil && e.top.con != nil && e.top.con.CRLF && len(args) > 0 && args[0].K == KSlc {
+		// a raw appender may only build a standalone buffer (nil first argument) inside a serialiser
+		o := e.oblige("crlf-call", shortKey(con.Key), pos, st.reach, sEq(slcArr(args[0].T), "0"))
+		o.Top = true
+	}
 	// requires
 	for i, r := range con.Requires {
 		t := in.specBool(r.Expr, env)
@@ -905,4 +911,35 @@ func (in *Inst) callOrdinal(x *ssa.Call, name string) int {
 		}
 	}
 	return n
+}
+
+// crlfCheck: in a function under `crlf-discipline`, bytes appended raw must be a constant free of
+// CR/LF, the constant "\r\n" itself, or provably free of CR and LF.
+func (in *Inst) crlfCheck(x *ssa.Call, xs Val, st *State) {
+	e := in.e
+	top := e.top
+	if top == nil || top.con == nil || !top.con.CRLF {
+		return
+	}
+	if sl, ok := x.Type().Underlying().(*types.Slice); !ok || kindOfType(sl.Elem()) != KInt {
+		return
+	}
+	if c, ok := e.constContent(xs.T); ok {
+		if c == "\r\n" || !strings.ContainsAny(c, "\r\n") {
+			return
+		}
+	}
+	key := in.srcKey(x.Pos())
+	for _, ex := range top.con.CRLFExempt {
+		if strings.Contains(key, ex) {
+			e.note("crlf-discipline: append " + key + " is exempt (not covered by the property's list of inputs)")
+			return
+		}
+	}
+	m := sSel(st.get("Mem"), slcArr(xs.T))
+	j := sym(e.fresh("q"))
+	goal := fmt.Sprintf("(forall ((%s Int)) (! (=> (and (<= %s %s) (< %s %s)) (and (not (= (select %s %s) 13)) (not (= (select %s %s) 10)))) :pattern ((select %s %s))))",
+		j, slcOff(xs.T), j, j, sAdd(slcOff(xs.T), slcLen(xs.T)), m, j, m, j, m, j)
+	o := e.oblige("crlf", key, x.Pos(), st.reach, goal)
+	o.Top = true
 }
